@@ -49,9 +49,22 @@ def uniform_new(rng, oid, dims, shape, dim, x0=Fraction(0), dt=Fraction(1, 4), c
     return op
 
 
-def shapes_with_dim_everywhere(rng, nd_choices=(1, 2, 3), n_dim=None, lo=2, hi=5):
-    """(dims, shape, dim) with the processed dimension in every position, distinct extents"""
+def shapes_with_dim_everywhere(rng, nd_choices=(1, 2, 3), n_dim=None, lo=2, hi=5, repeats=True):
+    """(dims, shape, dim) with the processed dimension in every position; pairwise distinct extents and,
+    with repeats, also shapes in which another axis has the SAME extent as the processed one"""
     out = []
+    if repeats:
+        for nd in nd_choices:
+            if nd < 2:
+                continue
+            for pos in range(nd):
+                dims = rng.sample(DIM_POOL, nd)
+                n = rng.randint(max(lo, 3), hi)
+                shape = [n] * nd
+                if nd == 3:
+                    other = rng.choice([j for j in range(nd) if j != pos])
+                    shape[other] = rng.choice([e for e in range(lo, hi + 1) if e != n])
+                out.append((dims, shape, dims[pos]))
     for nd in nd_choices:
         for pos in range(nd):
             dims = rng.sample(DIM_POOL, nd)
